@@ -66,3 +66,15 @@ def _c16_otherchains_order(p):
     return (a != b and sorted(a, key=key) == sorted(b, key=key)
             and d.get("base_hash_equal") is True and d.get("hashing_id_equal") is True
             and d.get("mining_blob") == "equal" and d.get("block_hash_equal") is False)
+
+
+@predicate("R14")
+def _r14(p):
+    # branch-valid side-branch block refused by the stake-signature check against main-chain state
+    return not p.get("corr") and p.get("code", 0) % 10000 == 4 and p.get("family") == "hist"
+
+
+@predicate("R13b")
+def _r13b(p):
+    # the implementation stored a block whose transactions exceed the block size cap (WellFormed clause 9)
+    return not p.get("corr") and p.get("code", 0) % 10000 == 9
